@@ -230,6 +230,63 @@ def r13_3(chk, cr, ev, q):
            any("has_hexagonal_rhombohedral_choices" in c.key() for e in rs for c, _ in e.guards))
 
 
+def _plain_size(term: P, size: P) -> P:
+    """numpy.asarray(size, ...) / numpy.array(size, ...) / tuple(size) -> size"""
+    m = {}
+    for a in find_atoms(term, lambda a: a[0] == "call" and call_name(a) in ("numpy.asarray", "numpy.array", "tuple", "list") and a[2]
+                        and a[2][0].key() == size.key()):
+        m[a] = size
+    return term.subs(m) if m else term
+
+
+def cell_frame(sc, size):
+    """Frame of a supercell built from vectors: 'self' when its rows are the own cell's rows scaled by the size, else None/'cols'."""
+    if sc is None:
+        return None
+    a = sc.as_atom()
+    if not (a and a[0] == "call" and call_name(a).endswith("UnitCell") and a[2]):
+        return None
+    v = _plain_size(a[2][0], size)
+    k = v.key()
+    D = ("self.unit_cell.direct", "self.unit_cell.lattice")
+    sz = (str(size),)
+    for d in D:
+        for z in sz:
+            rows = {f"{d}*{z}[(slice None None None), numpy.newaxis]", f"{z}[(slice None None None), numpy.newaxis]*{d}",
+                    f"(matmul (numpy.diag({z}) {d}))", f"(matmul (numpy.diag({size}) {d}))"}
+            if k in rows:
+                return "self"
+            if k in (f"{d}*{z}", f"{z}*{d}"):
+                return "cols"
+    return None
+
+
+def frac_in_supercell(fr: P, size: P, sc_frame):
+    """(ok?, description) for the fractional coordinates handed to the new asymmetric unit; None = unrecognised."""
+    fr = _plain_size(fr, size)
+    k = fr.key()
+    sz = (str(size),)
+    own = ("self.to_fractional($asym_pos)", "self.unit_cell.to_fractional($asym_pos)")
+    for o in own:
+        for z in sz:
+            if k in (f"({o})/({z})",):
+                return True, f"{fr}"
+            if k == o and False:
+                return False, "fractional coordinates of the old cell used unscaled"
+        if k == o:
+            return False, f"{fr}: fractional coordinates of the old cell, not divided by the supercell size"
+    if k == "$sc.to_fractional($asym_pos)":
+        if sc_frame == "self":
+            return True, f"{fr} with the supercell built from the own cell's vectors"
+        if sc_frame == "std":
+            return False, (f"{fr}: the positions are in the frame of self.unit_cell, the supercell comes from from_lengths_and_angles "
+                           "(standard orientation); the two differ after choose_trigonal_lattice or for a cell given by vectors")
+        if sc_frame == "cols":
+            return False, f"{fr}: the supercell scales the x, y, z columns of the cell matrix, not its a, b, c rows"
+        return None, None
+    return None, None
+
+
 def r13_4(chk, cr, q):
     ev = cr.ev(q, opaque={"sc", "molecules", "sc_mols", "asym_pos", "asym_nums", "asymmetric_unit"})
     chk.saw(CR, q)
@@ -249,7 +306,11 @@ def r13_4(chk, cr, q):
         chk.ob("R13.4", CR, q, "the supercell keeps the old angles, passed in radians", ang_ok and args[1].key() == "self.unit_cell.angles",
                fingerprint="angles", found=f"{args[1]} unit={unit}")
     else:
-        chk.ob("R13.4", CR, q, "the supercell is built with from_lengths_and_angles", False, found=str(sc))
+        fr0 = cell_frame(sc, size)
+        if fr0 is None:
+            raise AnalysisError(f"{q}: unrecognised construction of the supercell: {str(sc)[:120]}")
+        chk.ob("R13.4", CR, q, "the supercell's rows are the own cell's vectors a, b, c scaled by (n1, n2, n3)", fr0 == "self", fingerprint="lengths",
+               found=str(sc)[:160])
     # translation of every molecule by every cell vector
     app = [e for e in ev.events if e.kind == "call" and e.target is not None and e.target.key().endswith(".append") and len(e.loops) == 2]
     chk.need(len(app) == 1, f"{q}: molecule append inside the double loop not found")
@@ -280,8 +341,20 @@ def r13_4(chk, cr, q):
            pos is not None and nums is not None and "numpy.vstack" in pos.key() and ".positions" in pos.key() and lst in pos.key()
            and "numpy.hstack" in nums.key() and ".atomic_numbers" in nums.key() and lst in nums.key(), fingerprint="stack",
            found=f"{pos} / {nums}")
-    okf = asym is not None and "$sc.to_fractional($asym_pos)" in asym.key() and "$asym_nums" in asym.key()
-    chk.ob("R13.4", CR, q, "new fractional coordinates are computed with the NEW cell", okf, fingerprint="frac-new-cell", found=str(asym)[:160])
+    # Cartesian frames: the stacked positions are in the frame of self.unit_cell (translated copies of its molecules); a cell built
+    # by from_lengths_and_angles is in the standard orientation, which self.unit_cell need not be (choose_trigonal_lattice, cells
+    # given by vectors).  Converting positions with a cell of another frame scrambles the structure.
+    chk.need(asym is not None and asym.as_atom() and len(asym.as_atom()[2]) >= 2, f"{q}: AsymmetricUnit(elements, positions) not found")
+    fr = asym.as_atom()[2][1]
+    sc_frame = "std" if sc is not None and sc.as_atom() and call_name(sc.as_atom()).endswith("from_lengths_and_angles") else cell_frame(sc, size)
+    verdict, why = frac_in_supercell(fr, size, sc_frame)
+    if verdict is None:
+        raise AnalysisError(f"{q}: unrecognised computation of the supercell's fractional coordinates: {str(fr)[:120]}")
+    chk.ob("R13.4", CR, q, "the new fractional coordinates are those of the stacked positions in the supercell: converted by a cell in the "
+           "same Cartesian frame as the crystal's own cell (or taken in the own cell and divided by the size)", verdict, fingerprint="frac-new-cell",
+           expected="self.to_fractional(positions) / size, or to_fractional of a supercell built from self.unit_cell's own vectors", found=why)
+    chk.ob("R13.4", CR, q, "the elements handed to the new asymmetric unit come from the same stacking", "$asym_nums" in asym.as_atom()[2][0].key(),
+           fingerprint="elements", found=str(asym.as_atom()[2][0])[:120])
     ret = None
     for e2 in ev.events:
         if e2.kind == "assign" and e2.name == "new_crystal":
